@@ -230,3 +230,26 @@ func readJSON(path string, v any) error {
 	}
 	return json.Unmarshal(b, v)
 }
+
+// finishOrReplay ends a check whose replay mode is "run the (fast, deterministic) check again and look for the
+// recorded key": with a replay file it prints whether that violation recurs and does not touch the evidence.
+func finishOrReplay(ctx *evid.Ctx, replay string) int {
+	if replay == "" {
+		return ctx.Finish()
+	}
+	var f struct {
+		Key  string `json:"key"`
+		What string `json:"what"`
+	}
+	if err := readJSON(replay, &f); err != nil {
+		fmt.Println(err)
+		return 2
+	}
+	fmt.Printf("replay of %s\n  recorded: %s\n", f.Key, clip(f.What, 400))
+	if ctx.HasKey(f.Key) {
+		fmt.Println("REPRODUCED")
+		return 1
+	}
+	fmt.Println("not reproduced (property holds on this case)")
+	return 0
+}
